@@ -5,7 +5,8 @@ package trafficshape
 // Contracts for govc (contract-based deductive verification, see /verif/DESIGN.md).
 // This file contains comments only and is compiled only with the build tag `verif`.
 
-// Thin contracts used by the proxy core (package martian). They state no effect on the proxy's state.
+// ---------------------------------------------------------------------------------------------
+// Thin contracts used by the proxy core (package martian).
 //@ ghost field Conn.gwrapsTLS bool
 //@ func (*Conn).GetWrappedConn
 //@   trusted
@@ -21,3 +22,108 @@ package trafficshape
 //@ func (*Listener).GetTrafficShapedConn
 //@   trusted
 //@   ensures result != nil && result.gwrapsTLS == typeis(oc, *tls.Conn)
+
+// ---------------------------------------------------------------------------------------------
+// C18: shaping delays or cuts a response but never alters its bytes. Ghost wire: wireLen bytes have been written to the
+// wrapped connection, wireAt[i] is the i-th of them.
+//@ ghost var wireLen int
+//@ ghost var wireAt gmap[int]int
+//@ ghost field Bucket.bclosed bool
+
+//@ extern iface net.Conn.Write
+//@   modifies wireLen, wireAt
+//@   ensures 0 <= n && n <= len(b) && wireLen == old(wireLen) + n
+//@   ensures forall i int :: old(wireLen) <= i && i < wireLen ==> wireAt[i] == b[i - old(wireLen)]
+//@   ensures forall j int :: j < old(wireLen) ==> wireAt[j] == old(wireAt)[j]
+//@   ensures err == nil ==> n == len(b)
+
+// The bucket either refuses (closed bucket: fn is not called) or calls fn exactly once with a positive allowance and
+// returns what fn returned.
+//@ func (*Bucket).FillThrottle
+//@   trusted
+//@   invokes fn(remaining) requires remaining >= 1
+//@   ensures !invoked ==> result0 == 0 && result1 != nil
+//@ func (*Bucket).FillThrottleLocked
+//@   trusted
+//@   invokes fn(remaining) requires remaining >= 1
+//@   ensures !invoked ==> result0 == 0 && result1 != nil
+
+//@ extern func (*sync.Once).Do
+
+//@ pred wroteUpTo(consumed int, total int) = wireLen == total + consumed
+
+//@ func (*Conn).sleepLatency
+//@   trusted
+//@   modifies nothing
+
+//@ func (*Conn).WriteDefaultBuckets
+//@   serves C18
+//@   safe slice index
+//@   requires c != nil && c.WriteBucket != nil && c.conn != nil
+//@   modifies wireLen, wireAt
+//@   ensures[bytes-on-the-wire-are-a-prefix-of-the-argument-in-order] wireLen - old(wireLen) <= len(b) && forall i int :: old(wireLen) <= i && i < wireLen ==> wireAt[i] == old(b[i - wireLen])
+//@   ensures[earlier-bytes-untouched] forall j int :: j < old(wireLen) ==> wireAt[j] == old(wireAt)[j]
+//@   ensures[complete-write-without-error] result1 == nil ==> result0 == len(b) && wireLen == old(wireLen) + len(b)
+//@   ensures[reported-count-is-what-reached-the-wire] result0 <= wireLen - old(wireLen)
+//@   loop 0 invariant arr(b) == arr(old(b)) && off(b) + len(b) == off(old(b)) + len(old(b)) && len(b) <= len(old(b))
+//@   loop 0 invariant total == len(old(b)) - len(b) && wireLen == old(wireLen) + total
+//@   loop 0 invariant forall i int :: old(wireLen) <= i && i < wireLen ==> wireAt[i] == old(b[i - wireLen])
+//@   loop 0 invariant forall j int :: j < old(wireLen) ==> wireAt[j] == old(wireAt)[j]
+
+//@ func min
+//@   serves C18
+//@   modifies nothing
+//@   ensures result == min(x, y)
+
+//@ func (*Conn).CheckExistenceAndValidity
+//@   trusted
+//@   modifies nothing
+//@   ensures result ==> has(c.Shapes.M, URLRegex)
+//@ func (*Conn).GetNextActionFromIndex
+//@   trusted
+//@   modifies nothing
+//@   ensures result != nil && fresh(result) && (result.ActionNext ==> result.ByteOffset >= c.Context.ByteOffset)
+//@ iface Action.getCount
+//@ iface Action.getByte
+//@ iface Action.decrementCount
+
+// ctxOK: the shaping context of a connection is well formed; the next action (if any) lies at or after the current offset.
+//@ pred ctxOK(c *Conn) = c != nil && c.conn != nil && c.WriteBucket != nil && c.Context != nil && c.Shapes != nil && c.Shapes.M != nil &&
+//@      (c.Context.Shaping ==> c.Context.Buckets != nil && c.Context.Buckets.WriteBucket != nil && c.Context.GlobalBucket != nil && c.Context.NextActionInfo != nil &&
+//@            0 <= c.Context.HeaderBytesWritten && c.Context.HeaderBytesWritten <= c.Context.HeaderLen && c.Context.HeaderLen <= 1099511627776 &&
+//@            0 <= c.Context.ByteOffset &&
+//@            (c.Context.NextActionInfo.ActionNext ==> c.Context.ByteOffset <= c.Context.NextActionInfo.ByteOffset) &&
+//@            (forall k string :: has(c.Shapes.M, k) ==> c.Shapes.M[k] != nil && c.Shapes.M[k].Shape != nil))
+
+//@ func (*Conn).Write
+//@   serves C18
+//@   safe slice
+//@   requires c.Context.ByteOffset <= 4611686018427387904
+//@   requires ctxOK(c) && !c.Shapes.wheld && c.Shapes.rheld == 0 && (forall k string :: has(c.Shapes.M, k) ==> !c.Shapes.M[k].wheld && c.Shapes.M[k].rheld == 0)
+//@   modifies wireLen, wireAt, Context.HeaderBytesWritten, Context.ByteOffset, Context.Shaping, Context.NextActionInfo, sync.RWMutex.wheld, sync.RWMutex.rheld
+//@   noframe
+//@   ensures[bytes-on-the-wire-are-a-prefix-of-the-argument-in-order] wireLen - old(wireLen) <= len(b) && forall i int :: old(wireLen) <= i && i < wireLen ==> wireAt[i] == old(b[i - wireLen])
+//@   ensures[earlier-bytes-untouched] forall j int :: j < old(wireLen) ==> wireAt[j] == old(wireAt)[j]
+//@   ensures[complete-write-without-error] result1 == nil ==> result0 == len(b) && wireLen == old(wireLen) + len(b)
+//@   ensures[reported-count-is-what-reached-the-wire] result0 <= wireLen - old(wireLen)
+//@   ensures[shape-lock-released] !c.Shapes.wheld && c.Shapes.rheld == 0
+//@   loop 0 invariant ctxOK(c) && c.Context.Shaping && !c.Shapes.wheld && c.Shapes.rheld == 0 && c.Context.ByteOffset <= old(c.Context.ByteOffset) + total
+//@   loop 0 invariant forall k string :: has(c.Shapes.M, k) ==> !c.Shapes.M[k].wheld && c.Shapes.M[k].rheld == 0
+//@   loop 0 invariant arr(b) == arr(old(b)) && off(b) + len(b) == off(old(b)) + len(old(b)) && len(b) <= len(old(b))
+//@   loop 0 invariant total == len(old(b)) - len(b) && wireLen == old(wireLen) + total
+//@   loop 0 invariant forall i int :: old(wireLen) <= i && i < wireLen ==> wireAt[i] == old(b[i - wireLen])
+//@   loop 0 invariant forall j int :: j < old(wireLen) ==> wireAt[j] == old(wireAt)[j]
+//@   at call 0 of Infof before assert[connection-cut-exactly-at-the-action-offset] c.Context.ByteOffset == c.Context.NextActionInfo.ByteOffset
+
+// Release: closing a shaped connection closes the buckets that were created for it (each owns a ticker goroutine).
+//@ func (*Bucket).Close
+//@   trusted
+//@   modifies b.bclosed
+//@   ensures b.bclosed
+//@ extern iface net.Conn.Close
+//@ func (*Conn).Close
+//@   serves C18
+//@   requires c != nil && c.conn != nil
+//@   requires forall k string :: has(c.LocalBuckets, k) ==> c.LocalBuckets[k] != nil && c.LocalBuckets[k].ReadBucket != nil && c.LocalBuckets[k].WriteBucket != nil
+//@   modifies Bucket.bclosed
+//@   ensures[per-connection-buckets-released] forall k string :: has(c.LocalBuckets, k) ==> c.LocalBuckets[k].ReadBucket.bclosed && c.LocalBuckets[k].WriteBucket.bclosed
